@@ -174,6 +174,19 @@ def run_classes(specdir, drv, tdir, cfg, workers=4, timeout=1500):
     if p.returncode != 0:
         raise Infra("driver replaybeh (classes) failed:\n" + p.stdout[-2000:] + p.stderr[-2000:])
     os.remove(bpath)
+    # large case sets are cut at behaviour boundaries (each behaviour starts with its own SetMode) into parallel shards
+    lines = open(tpath).read().splitlines()
+    if len(lines) > 6000:
+        starts = [k for k, ln in enumerate(lines) if '"op": "SetMode"' in ln or '"op":"SetMode"' in ln]
+        nparts = min(8, max(2, len(lines) // 6000))
+        cuts = [starts[(len(starts) * j) // nparts] for j in range(nparts)] + [len(lines)]
+        os.remove(tpath)
+        for j in range(nparts):
+            with open(os.path.join(tdir, "shard_classes_%d.ndjson" % j), "w") as f:
+                for n_, ln in enumerate(lines[cuts[j]:cuts[j + 1]]):
+                    ev = json.loads(ln)
+                    ev["i"] = n_ + 1
+                    f.write(json.dumps(ev) + "\n")
     return tpath, len(behs), nstates
 
 
